@@ -4,7 +4,7 @@ Rec == ndJsonDeserialize(IOEnv.TRACE)
 VARIABLES l, bad
 TInit == l = 1 /\ bad = <<>>
 TNext == /\ l <= Len(Rec) /\ l' = l + 1
-         /\ bad' = IF GenBigOk(Rec[l]) THEN bad ELSE Append(bad, <<l, 1>>)
+         /\ bad' = IF PrimesEventOk(Rec[l]) THEN bad ELSE Append(bad, <<l, 1>>)
 TSpec == TInit /\ [][TNext]_<<l, bad>>
 Done == l = Len(Rec) + 1
 Report == Done => PrintT(<<"BAD", ToJson([bad |-> bad, lines |-> Len(Rec)])>>)
